@@ -229,6 +229,20 @@ CLAIMED = {
         technique="Lean 4 proof (induction over steps with an existential triangular factor) + Gauss-Hermite quadrature of the real propagate_free step",
         note=TB + " Partial: the O(dt^2) order and the Taylor-remainder bound are validated on the implementation, not proved; qr is assumed to meet its specification (monitored in C13).",
     ),
+    "C18": dict(
+        category="proof",
+        text=("Lean theorems: for every size, with A V = V diag(w), V V^T = 1 and F_ij = 1/(w_j - w_i) off the diagonal, the rule's dV = V (F o V^T A' V), "
+              "dw = diag(V^T A' V) satisfy the linearised eigen-equation A dV + A' V = dV diag(w) + V diag(dw) and V^T dV is antisymmetric (the standard "
+              "derivative for a non-degenerate spectrum); the decision logic of F gives |F_ij| <= 1/thresh + 1 for EVERY pair of eigenvalues (exactly "
+              "degenerate: 0 / 1; nearly degenerate: 1/big; separated: 1/(w_j - w_i)), so the derivative is finite; selecting distinct columns of an "
+              "orthogonal matrix and flipping signs gives orthonormal columns. Convergence of the Roothaan iteration is not a theorem. Tied to the code by "
+              "jax.jvp(_eigh) on non-degenerate / exactly / nearly degenerate spectra (finite, first-order equations, eigenvalue derivative vs finite "
+              "differences, F entries recovered from dV vs the Lean logic) and rhf/uhf.optimize (orthonormal output for every input, fixed point at "
+              "convergence, energy vs an independent Roothaan solver; closed and open shells, spin-dependent h1)."),
+        design_ref="DESIGN.md §5/C18",
+        technique="Lean 4 proof (Hadamard-product algebra for the JVP rule, case analysis of the regularised denominators) + jvp / SCF differential runs",
+        note=TB + " eigh's specification and SCF convergence are assumptions / validated; 'reasonable guess' = core-Hamiltonian orbitals on gapped problems.",
+    ),
 }
 
 NOT_YET = {}
